@@ -561,19 +561,63 @@ SRC_LABELINGS = {
 TX, TY, TZ = 4, 5, 6          # universe indexes of the target tree's data
 
 
-def source_setup(shape, labeling, typed, calc=None):
-    """ops building tree 0 = the source (forest `shape`), tree 1 = the target  x[z], y ; returns (ops, n)"""
-    lab = SRC_LABELINGS[labeling]
-    nodes = B.shape_to_nodes(shape, lambda i, d, s: (lab(i, d, s)[0], ("k1", "k2")[i % 2] if typed else None, lab(i, d, s)[1]))
+def _tops_and_last(nodes):
+    """pre-order ids of the top-level nodes"""
+    tops, k = [], 0
+    for nd in nodes:
+        tops.append(k + 1)
+        k += B.nodes_size([nd])
+    return tops
+
+
+def reorder_history(nodes, n, typed, variant):
+    """A history applied to the finished source so that its CURRENT order differs from its creation order
+    (a copy must follow the current order).  Node ids: source 1..n, target n+1..n+3, nodes added here from n+4.
+      A: a node inserted in front at the top level and one in front below node 1
+      B: sort(reverse=True, deep=True) of the whole tree
+      C: (plain) the last top-level node moved to the front (same parent), then node 1 moved below it - a parent
+         created later than the node; one top-level node only: the last node moved to the top-level front;
+         (typed: move_to is not implemented) = A followed by B"""
+    kd = (lambda i: ("k1", "k2")[i % 2] if typed else None)
+    a = [["add", 0, 0, 7, None, kd(0), True], ["add", 0, 1, 8, None, kd(1), True]]
+    b = [["sort", 0, 0, None, True, True]]
+    if variant == "A":
+        return a
+    if variant == "B":
+        return b
+    if typed:
+        return a + b
+    tops = _tops_and_last(nodes)
+    if len(tops) >= 2:
+        return [["move", 0, tops[-1], 0, 0, True], ["move", 0, 1, 0, tops[-1], None]]
+    if n >= 2:
+        return [["move", 0, n, 0, 0, True]]
+    return a
+
+
+def target_ops(n, typed):
+    """tree 1 = the target  x[z], y ; typed: siblings of MIXED kinds (x: k1, y: k2; z: k2), so that a kind-relative
+    index differs from the position in the child list"""
+    kx, kz, ky = ("k1", "k2", "k2") if typed else (None, None, None)
+    return [["add", 1, 0, TX, None, kx, None], ["add", 1, n + 1, TZ, None, kz, None], ["add", 1, 0, TY, None, ky, None]]
+
+
+def source_setup(shape, labeling, typed, calc=None, reorder=None, nodes=None):
+    """ops building tree 0 = the source (forest `shape`, or the explicit `nodes`), tree 1 = the target  x[z], y ;
+    then (reorder) a history that re-orders the source; returns (ops, n)"""
+    if nodes is None:
+        lab = SRC_LABELINGS[labeling]
+        nodes = B.shape_to_nodes(shape, lambda i, d, s: (lab(i, d, s)[0], ("k1", "k2")[i % 2] if typed else None, lab(i, d, s)[1]))
     n = B.nodes_size(nodes)
     ops = [["new", typed, calc], ["new", typed, None]] + mut.setup_ops(nodes, 0, typed)
-    k = "k1" if typed else None
-    ops += [["add", 1, 0, TX, None, k, None], ["add", 1, n + 1, TZ, None, k, None], ["add", 1, 0, TY, None, k, None]]
+    ops += target_ops(n, typed)
     # metadata on the first and the last source node
     if n:
         ops.append(["meta", 0, 1, ["set", "m", 1]])
         if n > 1:
             ops.append(["meta", 0, n, ["update", {"m": 2, "q": "v"}, False]])
+    if reorder:
+        ops += reorder_history(nodes, n, typed, reorder)
     return ops, n
 
 
@@ -656,15 +700,72 @@ def copy_alternatives(n, typed, full=True):
 EXTRA_SHAPES = [((((), ()),), ()), (((((),),),),), (((), ((), ())), ((),)), ((((), (), ()),), ()), ((((),), ((),)),)]
 
 
-def gen_groups(nmax, *, typed=(False, True), labelings=("mixed", "equal"), shapes=None, full=True, nmin=1):
+def whole_copy_alternatives(n, typed):
+    """the alternatives that copy whole branches / the whole tree (order and shape of the source matter): ~40 per source"""
+    x, y = n + 1, n + 3
+    out = []
+    for a in copy_alternatives(n, typed, True):
+        k = a[0]
+        if k in ("treecopy", "nodecopy"):
+            out.append(a)
+        elif k == "addtree" and a[1] == 1 and a[2] in (0, x) and (a[5] is None or a[4] in (None, True)):
+            out.append(a)
+        elif k == "copyto" and a[3] == 1 and a[4] == 0 and a[6] is None and a[7]:
+            out.append(a)
+        elif k == "addnode" and a[1] == 1 and a[2] == 0 and a[8] is True and a[6] is None and (a[7] is None or a[7] == {"n": y}):
+            out.append(a)
+        elif k == "shorttree" and a[3] == "prepend_child" and a[2] in (x, y) and a[5] is None:
+            out.append(a)
+    return out
+
+
+def gen_groups(nmax, *, typed=(False, True), labelings=("mixed", "equal"), shapes=None, full=True, nmin=1, reorders=(None,)):
     shp = list(shapes) if shapes is not None else [s for n in range(nmin, nmax + 1) for s in H.forests(n)]
     for shape in shp:
         for lname in labelings:
             for ty in typed:
-                setup, n = source_setup(shape, lname, ty)
+                for ro in reorders:
+                    setup, n = source_setup(shape, lname, ty, reorder=ro)
+                    if not constructible(SRC_UNIV, setup):
+                        continue
+                    alts = copy_alternatives(n, ty, full) if ro is None else whole_copy_alternatives(n, ty)
+                    yield dict(univ=SRC_UNIV, setup=setup, alts=alts, n=n,
+                               label=f"{lname}/{'typed' if ty else 'plain'}" + (f"/reordered-{ro}" if ro else ""))
+
+
+def _kinds(nodes, typed, c=None):
+    c = c if c is not None else [0]
+    out = []
+    for lbl, _, did, kids in nodes:
+        k = ("k1", "k2")[c[0] % 2] if typed else None
+        c[0] += 1
+        out.append([lbl, k, did, _kinds(kids, typed, c)])
+    return out
+
+
+# sources in which a node's clone sits INSIDE that node's own branch and the outer node has later children
+# (universe indexes of SRC_UNIV; [data, kind, data_id, children])
+NESTED_SOURCES = {
+    # dir[ sub[ dir[inner] ], readme ], other[ dir[x] ]          (the nested clone at depth 3)
+    "nested-d3": [[0, None, None, [[1, None, "X1", [[0, None, None, [[3, None, None, []]]]]], [7, None, None, []]]],
+                  [8, None, None, [[0, None, None, [[2, None, 5, []]]]]]],
+    # dir[ dir[inner], readme ]                                    (directly below itself)
+    "nested-d2": [[0, None, None, [[0, None, None, [[3, None, None, []]]], [7, None, None, []]]]],
+    # X[ a[ c[ X[e] ], b ], readme ]                               (depth 4, two outer nodes with later children)
+    "nested-d4": [[1, None, "X1", [[0, None, None, [[3, None, None, [[1, None, "X1", [[2, None, 5, []]]]]], [8, None, None, []]]],
+                                   [7, None, None, []]]]],
+}
+
+
+def gen_nested_groups(typed=(False, True), reorders=(None,)):
+    for name, nodes in NESTED_SOURCES.items():
+        for ty in typed:
+            for ro in reorders:
+                setup, n = source_setup(None, None, ty, nodes=_kinds(nodes, ty), reorder=ro)
                 if not constructible(SRC_UNIV, setup):
                     continue
-                yield dict(univ=SRC_UNIV, setup=setup, alts=copy_alternatives(n, ty, full), label=f"{lname}/{'typed' if ty else 'plain'}", n=n)
+                yield dict(univ=SRC_UNIV, setup=setup, alts=whole_copy_alternatives(n, ty), n=n,
+                           label=f"{name}/{'typed' if ty else 'plain'}" + (f"/reordered-{ro}" if ro else ""))
 
 
 META_EDITS = [["set", "m", 7], ["set", "m", None], ["set", "j", "v"], ["clear", None], ["clear", "m"],
@@ -690,6 +791,28 @@ class Gen7(mut.Gen):
                 out.append(self.w.rel(a))
                 stack.extend(a._children or ())
         return out
+
+    def reorder_op(self, ti):
+        """one operation that changes the ORDER of tree ti without changing what it contains much:
+        sort(reverse), an insert with before=, a move (plain trees)"""
+        rng, w = self.rng, self.w
+        ids = mut.live_ids(w, ti)
+        typed = isinstance(w.trees[ti], TypedTree)
+        kind = rng.choice(mut.KINDS) if typed else None
+        k = rng.choice(["sort", "insert", "move", "move"] if not typed else ["sort", "insert", "insert"])
+        if k == "sort" or not ids:
+            return self.do(["sort", ti, rng.choice([0, 0] + ids), None, True, rng.random() < 0.6])
+        if k == "insert":
+            p = rng.choice([0] + ids)
+            return self.do(["add", ti, p, rng.choice([7, 8]), rng.choice([None, "R1", "R2"]), kind,
+                            rng.choice([True, 0, 1, -1] + [self.before_arg(ti, p)])])
+        n = rng.choice(ids)
+        tgt = rng.choice([0] + ids)
+        if tgt:
+            nn, tn = w.live_node(n, ti), w.live_node(tgt, ti)
+            if tn is None or tn is nn or tn.is_descendant_of(nn):
+                tgt = 0
+        return self.do(["move", ti, n, ti, tgt, rng.choice([True, 0, None, 1, -1, self.before_arg(ti, tgt)])])
 
     def tail_op(self, side_tops, ti):
         rng, w = self.rng, self.w
@@ -744,11 +867,16 @@ class Gen7(mut.Gen):
             return self.do(["del", ti, {"nid": n}])
 
 
-def gen_history(rng, setup, copy_op, n_tail, univ=None):
+def gen_history(rng, setup, copy_op, n_tail, univ=None, reorder=0):
     """setup ops + the copy + a mutation history on either side; returns the history and the index of the copy."""
     g = Gen7(rng, univ=univ or SRC_UNIV)
     for op in setup:
         g.do(op)
+    for _ in range(reorder):
+        try:
+            g.reorder_op(0)
+        except Exception:
+            pass
     src_tops = [g.w.rel(c) for c in (g.w.trees[0]._root._children or ())]
     a0, t0 = g.w.allocated(), len(g.w.trees)
     g.do(copy_op)
